@@ -36,7 +36,7 @@ Clauses == <<
       /\ (M.m \in {"resReadRaises", "resReadKeyError"} /\ M.p = "ok" => O.iserr /\ O.code = -32603)
       /\ (M.m = "toolsCallUnknown" /\ NameKnown(M.m, M.p) => O.iserr /\ O.code = -32602)
       /\ (M.m = "resReadUnknown" /\ M.p \in {"ok", "argsNull", "argsList"} => O.iserr /\ O.code = -32602)
-      /\ (M.m \in {"ping", "toolsList", "resourcesList", "customOk"} => ~O.iserr)>>,
+      /\ (M.m \in {"ping", "toolsList", "resourcesList", "customOk", "customAck", "customStray"} => ~O.iserr)>>,
   <<"Model", /\ ObsShape = Predicted.shape
              /\ (ObsShape = "response" => O.iserr = Predicted.iserr /\ (O.iserr => 0 - O.code = Predicted.code))>>
 >>
